@@ -64,20 +64,24 @@ def gen_pda(rng, max_states=3, max_stack=3, max_trans=6, reserved=True, int_inpu
     return {"states": states, "stack": stack, "inputs": inputs, "trans": trans, "start": states[0],
             "z0": stack[0], "finals": finals, "hash": assign_hashes(rng, sorted(names), mode), "hashmode": mode,
             "ctor_tf": rng.chance(0.15), "ctor_eps": rng.pick([None, None, None, "str", "obj"]), "bulk": rng.chance(0.15),
-            "inmode": "int" if int_inputs and rng.chance(0.2) else "str"}
+            "inmode": rng.pick(["int", "int", "allint"]) if int_inputs and rng.chance(0.25) else "str"}
 
 
 def sv(case, s):
+    if case.get("inmode") == "allint":
+        return case["states"].index(s)          # states, stack symbols and input symbols all drawn from 0, 1, 2, ...
     return VS(s, case["hash"]["S:" + s]) if case.get("hash") and ("S:" + s) in case["hash"] else s
 
 
 def gv(case, g):
+    if case.get("inmode") == "allint":
+        return case["stack"].index(g)
     return VS(g, case["hash"]["G:" + g]) if case.get("hash") and ("G:" + g) in case["hash"] else g
 
 
 def iv(case, a):
     """value of an input symbol: the name itself, or (inmode "int") a small int -- the binary alphabet 0 / 1"""
-    return {"a": 0, "b": 1}[a] if case.get("inmode") == "int" else a
+    return {"a": 0, "b": 1}[a] if case.get("inmode") in ("int", "allint") else a
 
 
 def ref_of(case):
@@ -218,6 +222,8 @@ def shrink_pda(case):
         yield mk(ctor_eps=None)
     if case.get("bulk"):
         yield mk(bulk=False)
+    if case.get("inmode") == "allint":
+        yield mk(inmode="int")
     if case.get("inmode") == "int":
         yield mk(inmode="str")
     if case.get("hash"):
